@@ -10,87 +10,171 @@ NOTES = ("Contract-based deductive verification. Each check extracts the real fu
          "(vx, rewrites listed in the evidence), splices the contracts of /verif/specs, and lets Verus (unbounded) or Kani/CBMC (complete where loop-free, "
          "otherwise labelled bounded and not counted) discharge every obligation. Exit 2 = undecided (lost anchor / unsupported construct / solver limit), never an alarm.")
 
-CLAIMS = {
-    "C07": dict(
-        technique="structural sequencing/dominance obligations on the real text of make_broadcastable_changes and insert_local_changes (extractor-discharged) + Verus contracts on two fragments of broadcast_changes",
-        text="Obligations on the real code that the user statements, the bookkeeping insert and tx.commit() run in this order with `?` propagation, that the bookkeeping snapshot is committed and the broadcast spawned only after the database commit and only when a version was produced, that a request which changed nothing returns no version and books nothing, that the booked version is exactly the peeked next db_version, and (Verus) that the version's rows are chunked from seq 0 to last_seq and each chunk is announced unchanged with its own seq range. Rollback on failure and 'exactly one greater' are SQLite / cr-sqlite behaviour and are assumed.",
-        note="Structural obligations are syntactic facts about the real text, reported as such. Assumed: rusqlite transaction semantics, crsql_peek_next_db_version, tiling of the chunker (proved under C08).",
-    ),
-    "C09": dict(
-        technique="Verus contracts on the extracted hand-written speedy decoders (totality stand-ins: panic / reservation / unchecked-UTF-8 obligations) and on the real pack_columns / unpack_columns against a spec of the documented key format; Kani complete proof of the packed-integer width rule; structural obligation that every Vec<E> decoded by speedy itself has an element of positive minimum encoded size; replay searches on the real crate (in a child process for aborts)",
-        text="Unbounded proof (any input length) that the four hand-written decoders cannot reach a panic, only reserve memory bounded by a constant or by the bytes left in the reader, and only build Text from validated UTF-8; full-domain proof that num_bytes_needed_i64 is the extension's minimal big-endian width; unbounded proof that unpack_columns is total and returns exactly what the documented packed-key format decodes to (zero-extended integers/lengths) and that pack_columns emits exactly that format for up to 255 columns. A machine-checked lemma composes the two contracts: decoding the encoding of any column list (<= 255 columns) gives back exactly that list. Derived (speedy-derive) codecs, frame-size limits and peak RSS are not decided.",
-        note="Assumed: speedy Reader and primitive/derived Readable impls are total and consume their minimum size; generic reader/error types replaced by concrete stand-ins; `bytes` crate as compiled by Kani.",
-    ),
-    "C15": dict(
-        technique="Verus contracts on three anchored fragments of the real apply_schema (table-drop guard, per-table column/primary-key rules, new-column rules with a ghost DDL log) + structural obligations on apply_schema's statement texts and on execute_schema's transaction/commit/assignment order; replay on an in-memory cr-sqlite database",
-        text="Proof, for all pairs of current/new schemas (any tables, columns, definitions, key orders), of the additive rules the property lists: apply_schema returns Ok only if every existing table is still present, every existing column of a table present in both is present and unchanged, and the primary key is the same column sequence; a new column that is a primary key, or NOT NULL without a default, is rejected before any DDL, otherwise exactly one ALTER TABLE … ADD COLUMN runs; exactly the indexes the new definition adds are created (never a unique one) and exactly those it no longer lists are dropped, so re-applying the same definition creates and drops nothing. Structural: the only DROP TABLE / RENAME texts sit in a branch closed by the changed-columns guard; execute_schema builds the candidate by inserting into a clone, constrains it before any SQL, applies inside one immediate transaction committed with `?`, and replaces the in-memory schema only after that succeeded, under the schema write lock. Not decided: what SQLite/cr-sqlite do with the DDL (rows kept, rollback), replacement of changed indexes (a closure with `?`), Schema::constrain's own rules; restart is decided only as far as init_schema reads every persisted row (keyed by the unique object name) and execute_schema refreshes those rows wholesale.",
-        note="Assumed: the HashSet-difference idiom and filter_map/collect are replaced by set-valued stand-ins keeping the real closure; derived PartialEq on Column is field-wise; names are a stand-in text type; SQL AST payloads opaque.",
-    ),
-    "C14": dict(
-        technique="Verus contracts on anchored fragments of the real update feed (cl-cache filter/buffering of one candidate, cache trim, delete/update parity)",
-        text="Proof for all keys/causal lengths/cache contents that a candidate is dropped exactly when a strictly newer causal length of the same key was already let through, that otherwise the pending notification and the cache carry this latest causal length, that trimming keeps the most recent 1000 keys, and that a notification says Delete iff the causal length is even. Monotonicity is conditional on the key not having been evicted from the bounded cache. 'Every changed key is notified' is not decided.",
-        note="Assumed: ordered IndexMap stand-ins; TableName opaque; candidates reach batch_candidates; pk unpacking (C09).",
-    ),
-    "C10": dict(
-        technique="Verus contracts on anchored fragments of the real ingest loop (duplicate suppression, drop-oldest eviction with loop invariant, cache insertion), of process_multiple_changes' cleared decision and in-transaction skip, and on the real BookedVersions::contains/contains_all; structural obligation that the loops over offered changesets have no early exit",
-        text="Proof for all cache contents / changesets / actor ids that a changeset is suppressed only if the seen-cache covers all of its (actor, version, seq)s, that after a queue-full drop the cache no longer covers the dropped changeset (under its own actor id) and other entries are untouched, that insertion adds exactly the offered seqs, that a version is booked as Cleared only for a complete and empty changeset, that a changeset is passed over inside the write transaction iff the node already holds all of it (contains_all == every version known and every offered seq received) and that this never abandons the changesets queued behind it. Liveness (applied after finitely many offers) and JoinSet/back-pressure timing are not decided.",
-        note="Assumed: IndexMap/VecDeque stand-ins; let-chains desugared; queue/cost accounting invariant as precondition; well-ordered seq ranges (an inverted range from a peer would panic rangemap at the cache insertion — noted in DESIGN).",
-    ),
-    "C03": dict(
-        technique="Verus contracts on the extracted real Changeset accessors (is_complete, is_empty, seqs, versions, last_seq); shares PartialVersion::is_complete and insert_partial (union of received seqs) with C02",
-        text="Proof for all changesets that is_complete() holds exactly when the seqs are 0..=last_seq (empty variants are complete), i.e. the 'applied iff covered' test on a single changeset; together with C02's partial-completeness and received-seq union contracts. Atomic visibility itself (one SQLite transaction + cr-sqlite merge) and the eventual-apply liveness clause are not decided.",
-        note="Change payloads opaque. The gap tests inside process_fully_buffered_changes / startup and the SQL seq-range merge are not yet under contract.",
-    ),
-    "C05": dict(
-        technique="Verus contracts on anchored fragments of the real sync server (process_sync pre-filter, handle_need empties decisions, partial-range clipping), on the whole send_change_chunks against the chunker's proved contract, + the literal SQL overlap clause translated to a spec fn and proved equivalent to interval overlap; structural obligations (one read transaction per need, SQL scoped per actor)",
-        text="Proof, for all version ranges and bookkeeping states, that a need is skipped iff the server holds none of the requested versions (so held versions are answered and unknown ones are met with silence), that a version is declared empty iff it is neither buffered nor a known gap, and that the seq range sent for a buffered partial is exactly (buffered row) ∩ (requested range), rows being selected by SQL iff they overlap. Safety guards only: SQL result contents and the chunk tiling across calls (see C08) are not decided here.",
-        note="Assumed: `buffered`/`in_gaps` are the EXISTS sub-query results; stand-ins for Option::is_some_and / RangeInclusive::all keep the real closures; SQL fragment translated by vx/sqlpred.py (trusted), SQLite integer semantics mathematical.",
-    ),
-    "C16": dict(
-        technique="Verus contracts on anchored fragments of the real code (uni payload dispatch, the whole per-stream receive loop of the uni handler with a loop invariant, serve_sync prologue, sync-candidate filter closure, broadcast-target filter closure), extracted each run; Kani (bounded) on the member table",
-        text="Proof, for all cluster ids / members / payloads, of the four decision sites: a broadcast change is queued iff its payload's cluster id equals ours, and along a whole stream every queued change was carried by a frame declaring our cluster id whatever came before on that stream; serve_sync ends with exactly one Rejection(DifferentCluster) message and no data for a foreign cluster id; sync candidates and broadcast targets are other members of the same cluster. End-to-end 'never applies' beyond these sites is not decided.",
-        note="Assumed: `.instrument(..).await` on the one awaited write is replaced by a ghost log; speedy default_on_eof; members map contents. The uni handler's once-per-connection capture of the cluster id is noted, not covered.",
-    ),
-    "C17": dict(
-        technique="Verus contract on the extracted require_authz decision fragment and the query endpoint's read-only guard; structural obligations (extractor-discharged) on router/middleware order and guard dominance",
-        text="Proof that the authorisation decision passes iff no token is configured or the header carries exactly the configured token, and rejects with 401 otherwise; structural obligations on the real builder chain that every .route() precedes the single authz layer and that the served app is that router; the non-readonly guard returns a client error before any statement execution and dominates every query call.",
-        note="Assumed: axum Router::layer semantics, header parsing, sqlite3_stmt_readonly. Subscription-endpoint SQL (Matcher) is not decided. Structural obligations are syntactic facts about the real text, reported as such.",
-    ),
-    "C04": dict(
-        technique="Verus contracts on anchored fragments of the real SyncStateV1::compute_available_needs (guards, Full-need loop with loop invariants, tail request), extracted each run",
-        text="Unbounded proof (any number of ranges, all u64 versions) that the Full requests computed for an actor are exactly our gap ranges intersected with the peer's fully-held set (sound and complete), that nothing is requested for the node's own actor id or a zero head, and that the tail request is (our_head+1 ..= peer_head). The Partial-need branches and the construction of the peer-held set are not under contract.",
-        note="Fragments are wrapped as functions over their free variables (self->this, continue->return). Assumed: contracts of RangeInclusiveSet::overlapping, HashMap get/entry().or_default(), cmp::max/min on &newtype. Partial branches (closure chains) are NOT decided.",
-    ),
-    "C18": dict(
-        technique="Verus contracts on the extracted real Members::{remove_member, add_member, add_rtt} / MemberState::{new,is_ring0} (maps of any size; add_member's or_insert_with desugared to the entry match); Kani inductive transition contracts on the extracted add_member / recalculate_rings / ring0 (bounded state, labelled bounded); replay search on the real crate",
-        text="remove_member, add_member (an older or equal identity changes nothing; a newer one replaces address, timestamp and cluster id and re-indexes the address; an unknown peer is listed as announced; other members' identities untouched), add_rtt's sample, MemberState::new and is_ring0 are proved unbounded in Verus against the newest-identity statement. recalculate_rings and ring0 are closure/iterator chains Verus cannot take; they (and add_member again, with its address-index invariant) are checked by Kani as inductive steps from an arbitrary state with <=2 members (history length unbounded, state size bounded) and are reported as bounded stand-ins, not as proved.",
-        note="Assumed: std BTreeMap contract; Kani unit replaces BTreeMap/CircularBuffer/ActorId/SocketAddr/Timestamp by small stand-ins (listed in evidence). SWIM premise: live peers do not share an address; down notifications carry the identity's own address.",
-    ),
-    "C12": dict(
-        technique="Verus function contracts on the extracted real klukai-client SubscriptionStream::{handle_change,handle_eoq} + verified driver (inductive consecutive-ids statement); Verus contracts with loop invariants on two anchored fragments of the real server-side catch_up_sub (catch-up retry loop, hand-over to the buffered live events); structural obligations on the lag/overflow exits",
-        text="Unbounded proof (all u64 ids, all event sequences) of the client-library clause: an event is accepted iff its id is exactly last+1, a gap is reported as MissedChange{expected,got} and leaves the resume point unchanged. Server clause: for every outcome of the change-log reads and every run of buffered live events (the two points where the race with committed changes enters), the ids written to the subscriber during catch-up and hand-over are consecutive from the snapshot/resume point, the catch-up loop only hands over once it has reached the first buffered live event, every newer buffered event is forwarded exactly once, and a lagged broadcast receiver / overflowing buffer stops the stream. Not decided: the snapshot read itself (all_rows in one read transaction) and pruning of the change log below the resume point.",
-        note="Field projection of SubscriptionStream to (observed_eoq,last_change_id); SubscriptionError reduced to the one variant the functions build; ids < u64::MAX assumed.",
-    ),
-    "C02": dict(
-        technique="Verus function contracts on the extracted real bookkeeping functions (PartialVersion::is_complete/full_range, ...) against a set-valued view of RangeInclusiveSet",
-        text="Unbounded proof (Verus/Z3) over all range sets / all u64 values of the decision kernels the advertised sync state is computed from. Decides the per-function algebra only; that the functions are called inside the right SQLite transaction is not decided.",
-        note="Assumed: the contract of rangemap::RangeInclusiveSet (lib/rangeset.vrs; differential depcheck against the real crate is bounded), derived Ord on the u64 newtypes. Not decided: SQLite durability, call sequencing in process_multiple_changes, from_conn row loops.",
-    ),
-    "C08": dict(
-        technique="Verus function contracts + loop invariants on the extracted real ChunkedChanges::{new,next,set_max_buf_size}; verified driver for the whole-run tiling statement",
-        text="Unbounded proof (Verus/Z3) that every call of the real ChunkedChanges::next returns a prefix of the remaining rows with a range that starts where the previous ended, "
-             "contains its changes, and that a full run tiles [start,last] and concatenates to the input, for every input sequence, every size limit and limit changes between calls.",
-        note="Assumed: contracts of Peekable::{next,peek}, Vec::drain(..).collect(), Change::estimated_byte_size (uninterpreted); input rows Ok and strictly increasing in seq within [start,last] (SQL ORDER BY at call sites). "
-             "chunk_range (version sub-ranges): see evidence for its status.",
-    ),
-}
+CLAIMS = {'C07': {'technique': 'structural sequencing/dominance obligations on the real text of make_broadcastable_changes, insert_local_changes and broadcast_changes '
+                      '(extractor-discharged) + Verus contracts on the statement-closure fragment and two fragments of broadcast_changes',
+         'text': 'Obligations on the real code that the user statements, the bookkeeping insert and tx.commit() run in this order with `?` propagation; that '
+                 'the closure running the statements is Ok only if every statement succeeded; that the bookkeeping snapshot is committed and the broadcast '
+                 "spawned only after the database commit and only when a version was produced (never inside insert_local_changes); that 'no version' is "
+                 "concluded only from the transaction's own rows in crsql_changes and books nothing; that the booked version is exactly the peeked next "
+                 "db_version; (Verus) that the version's rows are chunked from seq 0 to last_seq and each chunk is announced unchanged with its own seq range; "
+                 "that rows reach the chunker in ascending seq order and are queued with a waiting send. Rollback on failure and 'exactly one greater' are "
+                 'SQLite / cr-sqlite behaviour and are assumed.',
+         'note': 'Structural obligations are syntactic facts about the real text, reported as such. Assumed: rusqlite transaction semantics, '
+                 'crsql_peek_next_db_version, tiling of the chunker (proved under C08).'},
+ 'C09': {'technique': 'Verus contracts on the extracted hand-written speedy decoders (totality stand-ins: panic / reservation / unchecked-UTF-8 obligations) '
+                      'and on the real pack_columns / unpack_columns against a spec of the documented key format; Kani complete proof of the packed-integer '
+                      'width rule; structural obligation that every Vec<E> decoded by speedy itself has an element of positive minimum encoded size; replay '
+                      'searches on the real crate (in a child process for aborts)',
+         'text': 'Unbounded proof (any input length) that the four hand-written decoders cannot reach a panic, only reserve memory bounded by a constant or by '
+                 "the bytes left in the reader, and only build Text from validated UTF-8; full-domain proof that num_bytes_needed_i64 is the extension's "
+                 'minimal big-endian width; unbounded proof that unpack_columns is total and returns exactly what the documented packed-key format decodes to '
+                 '(zero-extended integers/lengths) and that pack_columns emits exactly that format for up to 255 columns. A machine-checked lemma composes the '
+                 'two contracts: decoding the encoding of any column list (<= 255 columns) gives back exactly that list. Derived (speedy-derive) codecs, '
+                 'frame-size limits and peak RSS are not decided.',
+         'note': 'Assumed: speedy Reader and primitive/derived Readable impls are total and consume their minimum size; generic reader/error types replaced by '
+                 'concrete stand-ins; `bytes` crate as compiled by Kani.'},
+ 'C15': {'technique': 'Verus contracts on three anchored fragments of the real apply_schema (table-drop guard, per-table column/primary-key rules, new-column '
+                      "rules with a ghost DDL log) + structural obligations on apply_schema's statement texts and on execute_schema's "
+                      'transaction/commit/assignment order; replay on an in-memory cr-sqlite database',
+         'text': 'Proof, for all pairs of current/new schemas (any tables, columns, definitions, key orders), of the additive rules the property lists: '
+                 'apply_schema returns Ok only if every existing table is still present, every existing column of a table present in both is present and '
+                 'unchanged, and the primary key is the same column sequence; a new column that is a primary key, or NOT NULL without a default, is rejected '
+                 'before any DDL, otherwise exactly one ALTER TABLE … ADD COLUMN runs; exactly the indexes the new definition adds are created (never a unique '
+                 'one) and exactly those it no longer lists are dropped, so re-applying the same definition creates and drops nothing. Structural: the only '
+                 'DROP TABLE / RENAME texts sit in a branch closed by the changed-columns guard; execute_schema builds the candidate by inserting into a '
+                 'clone, constrains it before any SQL, applies inside one immediate transaction committed with `?`, and replaces the in-memory schema only '
+                 'after that succeeded, under the schema write lock. Not decided: what SQLite/cr-sqlite do with the DDL (rows kept, rollback), replacement of '
+                 "changed indexes (a closure with `?`), Schema::constrain's own rules; restart is decided only as far as init_schema reads every persisted row "
+                 '(keyed by the unique object name) and execute_schema refreshes those rows wholesale.',
+         'note': 'Assumed: the HashSet-difference idiom and filter_map/collect are replaced by set-valued stand-ins keeping the real closure; derived '
+                 'PartialEq on Column is field-wise; names are a stand-in text type; SQL AST payloads opaque.'},
+ 'C14': {'technique': 'Verus contracts on anchored fragments of the real update feed (cl-cache filter/buffering of one candidate, cache trim, the per-batch '
+                      'notification loop, delete/update parity, the impacted-rows filter of process_complete_version) + structural obligations (both feeds fed '
+                      'on all commit paths, positional column binding)',
+         'text': 'Proof for all keys/causal lengths/cache contents that a candidate is dropped exactly when a strictly newer causal length of the same key was '
+                 'already let through, that otherwise the pending notification and the cache carry this latest causal length, that trimming keeps the most '
+                 'recent 1000 keys, that every key of a flushed batch is reported with its own fate (Delete iff its causal length is even), and that a remote '
+                 'change reaches the feeds iff it impacted a row. Monotonicity is conditional on the key not having been evicted from the bounded cache. '
+                 'Channel delivery inside match_changes is not decided.',
+         'note': 'Assumed: ordered IndexMap stand-ins; TableName opaque; candidates reach batch_candidates; pk unpacking (C09).'},
+ 'C10': {'technique': 'Verus contracts on anchored fragments of the real ingest loop (duplicate suppression, drop-oldest eviction with loop invariant, cache '
+                      "insertion), of process_multiple_changes' cleared decision and in-transaction skip, and on the real "
+                      'BookedVersions::contains/contains_all; structural obligation that the loops over offered changesets have no early exit',
+         'text': 'Proof for all cache contents / changesets / actor ids that a changeset is suppressed only if the seen-cache covers all of its (actor, '
+                 'version, seq)s, that after a queue-full drop the cache no longer covers the dropped changeset (under its own actor id) and other entries are '
+                 'untouched, that insertion adds exactly the offered seqs, that a version is booked as Cleared only for a complete and empty changeset, that a '
+                 'changeset is passed over inside the write transaction iff the node already holds all of it (contains_all == every version known and every '
+                 'offered seq received) and that this never abandons the changesets queued behind it. Liveness (applied after finitely many offers) and '
+                 'JoinSet/back-pressure timing are not decided.',
+         'note': 'Assumed: IndexMap/VecDeque stand-ins; let-chains desugared; queue/cost accounting invariant as precondition; well-ordered seq ranges (an '
+                 'inverted range from a peer would panic rangemap at the cache insertion — noted in DESIGN).'},
+ 'C03': {'technique': 'Verus contracts on the extracted real Changeset accessors, on anchored fragments of process_multiple_changes / '
+                      'process_incomplete_version / process_fully_buffered_changes / run_root (same-batch skip, seq-range merge + write-back, the three '
+                      'completeness triggers), on send_change_chunks and the ingest cache fragments shared with C05/C10; structural obligations (SQL scoping, '
+                      'column and parameter bindings, chunker construction sites, commit order)',
+         'text': 'Proof for all changesets that is_complete() holds exactly when the seqs are 0..=last_seq; a chunk is skipped within a batch iff everything '
+                 'it carries was recorded; the SQL seq-range merge selects exactly overlapping-or-adjacent rows and writes back one row covering new ∪ merged; '
+                 "each of the three 'is it complete now' triggers fires iff no gap remains in 0..=last_seq; what a supplier sends for a range tiles it up to "
+                 'the requested end with exactly the selected rows; a chunk shed from the ingest queue is forgotten by the duplicate cache. Atomic visibility '
+                 'itself (one SQLite transaction + cr-sqlite merge) and liveness are not decided.',
+         'note': 'Change payloads opaque. Shares PartialVersion::is_complete / insert_partial / from_conn obligations with C02. Structural obligations are '
+                 'syntactic facts about the real text and are reported as such.'},
+ 'C05': {'technique': 'Verus contracts on anchored fragments of the real sync server (process_sync pre-filter, handle_need empties decisions, partial-range '
+                      "clipping), on the whole send_change_chunks against the chunker's proved contract, + the literal SQL overlap clause translated to a spec "
+                      'fn and proved equivalent to interval overlap; structural obligations (one read transaction per need, SQL scoped per actor)',
+         'text': 'Proof, for all version ranges and bookkeeping states, that a need is skipped iff the server holds none of the requested versions (so held '
+                 'versions are answered and unknown ones are met with silence), that a version is declared empty iff it is neither buffered nor a known gap, '
+                 'and that the seq range sent for a buffered partial is exactly (buffered row) ∩ (requested range), rows being selected by SQL iff they '
+                 'overlap. Safety guards only: SQL result contents and the chunk tiling across calls (see C08) are not decided here.',
+         'note': 'Assumed: `buffered`/`in_gaps` are the EXISTS sub-query results; stand-ins for Option::is_some_and / RangeInclusive::all keep the real '
+                 'closures; SQL fragment translated by vx/sqlpred.py (trusted), SQLite integer semantics mathematical.'},
+ 'C16': {'technique': 'Verus contracts on anchored fragments of the real code (uni payload dispatch, the whole per-stream receive loop of the uni handler with '
+                      'a loop invariant, serve_sync prologue, sync-candidate filter closure, broadcast-target filter closure), extracted each run; Kani '
+                      '(bounded) on the member table',
+         'text': "Proof, for all cluster ids / members / payloads, of the four decision sites: a broadcast change is queued iff its payload's cluster id "
+                 'equals ours, and along a whole stream every queued change was carried by a frame declaring our cluster id whatever came before on that '
+                 'stream; serve_sync ends with exactly one Rejection(DifferentCluster) message and no data for a foreign cluster id; sync candidates and '
+                 "broadcast targets are other members of the same cluster. End-to-end 'never applies' beyond these sites is not decided.",
+         'note': 'Assumed: `.instrument(..).await` on the one awaited write is replaced by a ghost log; speedy default_on_eof; members map contents. The uni '
+                 "handler's once-per-connection capture of the cluster id is noted, not covered."},
+ 'C17': {'technique': "Verus contract on the extracted require_authz decision fragment and the query endpoint's read-only guard; structural obligations "
+                      '(extractor-discharged) on router/middleware order and guard dominance',
+         'text': 'Proof that the authorisation decision passes iff no token is configured or the header carries exactly the configured token, and rejects with '
+                 '401 otherwise; structural obligations on the real builder chain that every .route() precedes the single authz layer and that the served app '
+                 'is that router; the non-readonly guard returns a client error before any statement execution and dominates every query call.',
+         'note': 'Assumed: axum Router::layer semantics, header parsing, sqlite3_stmt_readonly. Subscription-endpoint SQL (Matcher) is not decided. Structural '
+                 'obligations are syntactic facts about the real text, reported as such.'},
+ 'C04': {'technique': 'Verus contracts on anchored fragments of the real SyncStateV1::compute_available_needs (guards, peer-held sets, Full-need loop, tail '
+                      "request) and of parallel_sync's request de-duplication (full and partial, nested loop invariants), extracted each run",
+         'text': 'Unbounded proof (any number of ranges, all u64 versions) that the Full requests computed for an actor are exactly our gap ranges intersected '
+                 "with the peer's fully-held set (= 1..=head minus its needs minus its partials), that nothing is requested for the node's own actor id or a "
+                 'zero head and nothing else is skipped, that the tail request is (our_head+1 ..= peer_head), that for a doubly-partial version the peer holds '
+                 'seqs 0..=end minus its missing ranges, and that the per-round de-duplication removes from a need exactly what was already requested for that '
+                 "originating actor (and version). Not decided: the flat_map/collect chain intersecting our missing seqs with the peer's held seqs.",
+         'note': 'Fragments are wrapped as functions over their free variables (self->this, continue->return). Assumed: contracts of '
+                 'RangeInclusiveSet::overlapping, HashMap get/entry().or_default(), cmp::max/min on &newtype.'},
+ 'C18': {'technique': 'Verus contracts on the extracted real Members::{remove_member, add_member, add_rtt} / MemberState::{new,is_ring0} (maps of any size; '
+                      "add_member's or_insert_with desugared to the entry match); Kani inductive transition contracts on the extracted add_member / "
+                      'recalculate_rings / ring0 (bounded state, labelled bounded); replay search on the real crate',
+         'text': 'remove_member, add_member (an older or equal identity changes nothing; a newer one replaces address, timestamp and cluster id and re-indexes '
+                 "the address; an unknown peer is listed as announced; other members' identities untouched), add_rtt's sample, MemberState::new and is_ring0 "
+                 'are proved unbounded in Verus against the newest-identity statement. recalculate_rings and ring0 are closure/iterator chains Verus cannot '
+                 'take; they (and add_member again, with its address-index invariant) are checked by Kani as inductive steps from an arbitrary state with <=2 '
+                 'members (history length unbounded, state size bounded) and are reported as bounded stand-ins, not as proved.',
+         'note': 'Assumed: std BTreeMap contract; Kani unit replaces BTreeMap/CircularBuffer/ActorId/SocketAddr/Timestamp by small stand-ins (listed in '
+                 "evidence). SWIM premise: live peers do not share an address; down notifications carry the identity's own address."},
+ 'C12': {'technique': 'Verus function contracts on the extracted real klukai-client SubscriptionStream::{handle_change,handle_eoq} + verified driver '
+                      '(inductive consecutive-ids statement); Verus contracts with loop invariants on two anchored fragments of the real server-side '
+                      'catch_up_sub (catch-up retry loop, hand-over to the buffered live events); structural obligations on the lag/overflow exits',
+         'text': 'Unbounded proof (all u64 ids, all event sequences) of the client-library clause: an event is accepted iff its id is exactly last+1, a gap is '
+                 'reported as MissedChange{expected,got} and leaves the resume point unchanged. Server clause: for every outcome of the change-log reads and '
+                 'every run of buffered live events (the two points where the race with committed changes enters), the ids written to the subscriber during '
+                 'catch-up and hand-over are consecutive from the snapshot/resume point, the catch-up loop only hands over once it has reached the first '
+                 'buffered live event, every newer buffered event is forwarded exactly once, and a lagged broadcast receiver / overflowing buffer stops the '
+                 'stream. Not decided: the snapshot read itself (all_rows in one read transaction) and pruning of the change log below the resume point.',
+         'note': 'Field projection of SubscriptionStream to (observed_eoq,last_change_id); SubscriptionError reduced to the one variant the functions build; '
+                 'ids < u64::MAX assumed.'},
+ 'C02': {'technique': 'Verus function contracts on the extracted real bookkeeping functions (PartialVersion::{is_complete,full_range}, '
+                      'BookedVersions::{contains_version,contains,contains_all,insert_partial,snapshot,commit_snapshot}, '
+                      'VersionsSnapshot::{compute_gaps_change,insert_db}) and on anchored fragments (generate_sync per actor, cleared-range head, seq-range '
+                      'merge and write-back) against a set-valued view of RangeInclusiveSet; structural obligations on from_conn, the persist-before-publish '
+                      'order and SQL scoping/parameters',
+         'text': 'Unbounded proof (Verus/Z3, all range sets / all u64 values, loop invariants): a version is known iff <= head and not needed; '
+                 "compute_gaps_change yields head = max, needed' = (needed ∪ new tail) minus the inserted versions, deleted rows are stored rows; insert_db "
+                 "keeps 'persisted gap rows == stored needed ranges' as an inductive invariant (one-row deletes, collision-free inserts); a partial is "
+                 'complete iff every seq 0..=last_seq was received and its record is the union of received chunks, persisted as one row with the merged '
+                 'bounds; generate_sync advertises per actor head, gap ranges and exactly the missing seqs of incomplete partials; a cleared range moves the '
+                 'persisted head to max(head, end). Structural: from_conn load order and column binding; bookkeeping rows written before tx.commit()?, '
+                 "in-memory view advanced only after it. Not decided: SQLite durability, cr-sqlite's own head bump for non-empty versions.",
+         'note': 'Assumed: the contract of rangemap::RangeInclusiveSet (lib/rangeset.vrs; differential depcheck against the real crate is bounded), derived '
+                 'Ord on the u64 newtypes, SQL statements of insert_db bound to ghost-table stand-ins with the real parameter expressions.'},
+ 'C08': {'technique': 'Verus function contracts + loop invariants on the extracted real ChunkedChanges::{new,next,set_max_buf_size} with a verified whole-run '
+                      'driver, on the whole send_change_chunks against that contract, and on the clip / de-duplication fragments shared with C05/C04; Kani '
+                      '(bounded) on chunk_range; structural obligations on every chunker construction site',
+         'text': 'Unbounded proof (Verus/Z3) that every call of the real ChunkedChanges::next returns a prefix of the remaining rows with a range that starts '
+                 'where the previous ended, contains its changes, and that a full run tiles [start,last] and concatenates to the input, for every input '
+                 'sequence, every size limit and limit changes between calls; that send_change_chunks sends consecutive ranges from the requested start to the '
+                 'requested end carrying exactly those rows; that every chunker is constructed with the very (start, end) its rows were selected with, in '
+                 "ascending seq order; that the range tiled for a partially buffered version is (buffered) ∩ (requested). chunk_range's union = request is "
+                 'checked by Kani with stated bounds.',
+         'note': 'Assumed: contracts of Peekable::{next,peek}, Vec::drain(..).collect(), Change::estimated_byte_size (uninterpreted); input rows Ok and '
+                 'strictly increasing in seq within [start,last] (SQL ORDER BY at call sites). chunk_range (version sub-ranges): see evidence for its status.'}}
 
-NOT_APPLICABLE = {
-    "C01": "multi-node history/schedule liveness whose merge runs inside cr-sqlite; no function contract expresses it (per-node kernels are proved under the claimed properties)",
-    "C06": "quantifies over crash points and SQLite WAL durability; not a pre/postcondition of any Rust function",
-    "C11": "incremental view maintenance is generated SQL over arbitrary user SELECTs, executed by SQLite; no Verus/Kani contract can state equality with re-evaluation",
-    "C13": "depends on process stop points and sub-database contents; only a string guard is contract-shaped",
-    "C19": "behaviour is SQL (VACUUM INTO, ordinal rewrites) + file locking across processes",
-    "C20": "tokio concurrency (exclusion, priority, deadlock freedom); outside Kani (no threads) and Verus (needs its own sync primitives)",
-    # not yet built — removed from this list as each check lands
-}
+NOT_APPLICABLE = {'C01': 'multi-node history/schedule liveness whose merge runs inside cr-sqlite; no function contract expresses it (per-node kernels are proved under the '
+        'claimed properties)',
+ 'C06': 'quantifies over crash points and SQLite WAL durability; not a pre/postcondition of any Rust function',
+ 'C11': 'incremental view maintenance is generated SQL over arbitrary user SELECTs, executed by SQLite; no Verus/Kani contract can state equality with '
+        're-evaluation',
+ 'C13': 'depends on process stop points and sub-database contents; only a string guard is contract-shaped',
+ 'C19': 'behaviour is SQL (VACUUM INTO, ordinal rewrites) + file locking across processes',
+ 'C20': 'tokio concurrency (exclusion, priority, deadlock freedom); outside Kani (no threads) and Verus (needs its own sync primitives)'}
+
+HOOKS = {'guard': 'none',
+ 'enable': "no source hooks: every verifier input is extracted mechanically from /repo's working tree by /verif/vx on each run; /repo is built unmodified",
+ 'baseline_off_cmd': 'cd /repo && cargo test --workspace --no-fail-fast --offline',
+ 'source_commits': [],
+ 'add_only': True}
+
+NOTES = ("Contract-based deductive verification. Each check extracts the real functions a property depends on from /repo's working tree (vx, rewrites listed in the "
+ 'evidence), splices the contracts of /verif/specs, and lets Verus (unbounded) or Kani/CBMC (complete where loop-free, otherwise labelled bounded and not '
+ 'counted) discharge every obligation. Exit 2 = undecided (lost anchor / unsupported construct / solver limit), never an alarm.')
